@@ -1,6 +1,7 @@
 package fox
 
 import (
+	"cmp"
 	"fmt"
 	"net/http"
 )
@@ -229,7 +230,7 @@ func (txn *Txn) Reverse(method, host, path string) (route *Route, tsr bool) {
 	tree := txn.rootTxn.tree
 	c := tree.ctx.Get().(*cTx)
 	c.resetNil()
-	n, tsr := txn.rootTxn.root.lookup(tree, method, host, path, c, true)
+	n, tsr := txn.rootTxn.root.lookup(tree, method, host, cmp.Or(path, "/"), c, true)
 	tree.ctx.Put(c)
 	if n != nil {
 		return n.route, tsr
